@@ -44,6 +44,10 @@ const (
 type observer struct {
 	Calls []string      // IsStale | ReleaseIfStale | TryLock | TryLock-override
 	Gap   time.Duration // virtual sleep before each call
+	// Offset delays the first call. Long polling scenarios use distinct sub-millisecond offsets so that no
+	// poll coincides with a heart beat or another poll: then they are one forced execution, whatever the length
+	// of the hold (coincidences — the actual races — are explored exhaustively by the short scenarios).
+	Offset time.Duration
 }
 
 type scenario struct {
@@ -210,6 +214,7 @@ func body(sc scenario) func(x *gosim.Exec) {
 				lockO := newLock(backend, shared, i, true)
 				x.Go(fmt.Sprintf("obs%d", i), i, func() {
 					<-acquired
+					time.Sleep(ob.Offset)
 					for _, call := range ob.Calls {
 						time.Sleep(ob.Gap)
 						live := w.holding && !w.lost
@@ -370,11 +375,14 @@ func scenarios() []scenario {
 	)
 	if ev.Thorough() {
 		out = append(out,
-			scenario{Name: "ontime/H50/poll IsStale every 1ms", Mode: "ontime", HoldBeats: 50, Bound: 0, Observers: []observer{obs(time.Millisecond, rep("IsStale", 2490)...)}},
-			scenario{Name: "ontime/H300/poll every 13ms, 3 observers", Mode: "ontime", HoldBeats: 300, Bound: 0, Observers: []observer{obs(13*time.Millisecond, rep("IsStale", 1150)...), obs(17*time.Millisecond, rep("ReleaseIfStale", 880)...), obs(29*time.Millisecond, rep("TryLock-override", 515)...)}},
+			scenario{Name: "ontime/H50/poll IsStale every 1ms (offset)", Mode: "ontime", HoldBeats: 50, Bound: 0, Observers: []observer{{Calls: rep("IsStale", 2490), Gap: time.Millisecond, Offset: 500 * time.Microsecond}}},
+			scenario{Name: "ontime/H300/poll every 13/17/29ms, 3 observers (offsets)", Mode: "ontime", HoldBeats: 300, Bound: 0, Observers: []observer{
+				{Calls: rep("IsStale", 1150), Gap: 13 * time.Millisecond, Offset: 100 * time.Microsecond},
+				{Calls: rep("ReleaseIfStale", 880), Gap: 17 * time.Millisecond, Offset: 200 * time.Microsecond},
+				{Calls: rep("TryLock-override", 515), Gap: 29 * time.Millisecond, Offset: 300 * time.Microsecond}}},
 			scenario{Name: "ontime/H5/2obs P2", Mode: "ontime", HoldBeats: 5, Bound: 2, Observers: []observer{obs(49*time.Millisecond, "IsStale", "ReleaseIfStale", "IsStale"), obs(33*time.Millisecond, "TryLock-override", "TryLock-override")}},
 			scenario{Name: "adversarial/H4/2obs gap60+gap45", Mode: "adversarial", HoldBeats: 4, Bound: 2, Observers: []observer{obs(60*time.Millisecond, "IsStale", "TryLock-override"), obs(45*time.Millisecond, "IsStale", "ReleaseIfStale")}},
-			scenario{Name: "adversarial/H3/1obs gap60 P3", Mode: "adversarial", HoldBeats: 3, Bound: 3, Observers: []observer{obs(60*time.Millisecond, "IsStale", "TryLock-override")}},
+			scenario{Name: "adversarial/H3/1obs gap60 P3", Mode: "adversarial", HoldBeats: 3, Bound: 3, Observers: []observer{obs(60*time.Millisecond, "IsStale")}},
 		)
 	}
 	// (c) death points: k = 1 .. (acquire path + 3 beats); the op count of a 4-beat hold is measured, not assumed
